@@ -412,7 +412,11 @@ def correspondence(ctx):
                                    + [C.f2w(v) for v in xs] + [str(ys.size)] + [C.f2w(v) for v in ys]))
             jobs2.append(('mask', case, int(ap.segment_ids[k]), ap.local_masks[k]))
         # OPD predicates on a third of the apertures (prepare_opd_bases is the slow part)
-        if len(jobs2) % 3 == 0 or cfg['shape'][0] <= 64:
+        if any(w[0].stop == w[0].start or w[1].stop == w[1].start for w in ap.windows):
+            # a segment lies entirely outside the sampled array (empty window): it has no sample, the OPD claims are
+            # vacuous for it, and prepare_opd_bases cannot build a basis on an empty grid (IndexError) -- out of scope
+            ctx.hist['compose_opd:skipped-empty-window'] += 1
+        elif len(jobs2) % 3 == 0 or cfg['shape'][0] <= 64:
             try:
                 for b in opd_predicates(ap, rng)[:1]:
                     ctx.pred_fail('compose_opd', case, b)
@@ -670,10 +674,11 @@ def _eval(item, case):
                 break
             # the window must contain the whole hexagon (up to one sample): no transmitting sample on the window edge
             # unless the window is clamped by the array
-        try:
-            bad += opd_predicates(ap, rng)
-        except Exception as ex:
-            bad.append(f'compose_opd raised {type(ex).__name__}: {ex}')
+        if not any(w[0].stop == w[0].start or w[1].stop == w[1].start for w in ap.windows):
+            try:
+                bad += opd_predicates(ap, rng)
+            except Exception as ex:
+                bad.append(f'compose_opd raised {type(ex).__name__}: {ex}')
         return bad
     if item in ('keystone',) or (item == 'compose_opd' and 'ccd' in case):
         try:
